@@ -576,6 +576,11 @@ def check(pid, tier, regen=False):
                                      % (k1["depth"], k1["replayed"], k1["transition_histories"]))
         if k1["model_violation"]:
             R.notes.append("SPEC-DRIFT: refined model violates %s (counterexample replayed on the code)" % k1["model_violation"])
+    if pid in ("C11", "C12", "C13"):
+        # executions this framework did not script: the repository's own test-suite and wide-width histories, recorded
+        # by harness/recorder.py and validated against spec/Knowledge.tla (no term semantics, any width)
+        from . import eng_knowledge
+        R.coverage["knowledge_monitor"] = eng_knowledge.stream(R, pid, tier, seed)
     R.assumptions = ["Z3 is correct", "variables of width <= 3: models enumerated exhaustively by TLC",
                      "reference state computed from logged inputs only"]
     return R.finish()
